@@ -398,7 +398,12 @@ def compare(op, a, b):
                     r = SYM_COMPARE[v.ty.name]("is", a, b)
                     break
             else:
-                r = py_eq(a, b)
+                saved = CURRENT_MODE[0]
+                CURRENT_MODE[0] = "spec"  # `is` is identity, never the class's __eq__
+                try:
+                    r = py_eq(a, b)
+                finally:
+                    CURRENT_MODE[0] = saved
         else:
             r = a is b or (a == b and isinstance(a, (bool, int, str, EnumVal)))
         return r if op == "is" else py_not(r)
@@ -451,10 +456,17 @@ def contains(container, x):
     raise Unsupported(f"'in' on {type(container).__name__}")
 
 
+ITER_HOOK: dict = {}  # sort name -> callable(sv) -> SymIter (objects that are iterable, e.g. a tuple of atoms)
+
+
 def to_iter(v, site="?"):
     """Return a python list (concrete iteration) or a SymIter."""
     if isinstance(v, SymIter):
         return v
+    if isinstance(v, SV) and v.ty.kind == "u" and v.ty.name in ITER_HOOK:
+        return ITER_HOOK[v.ty.name](v)
+    if hasattr(v, "model_iter"):
+        return v.model_iter()
     if isinstance(v, SV):
         if v.ty.kind == "seq":
             return SeqIter(v)
